@@ -39,9 +39,10 @@ def run(rep, facts):
         # guard
         guard = False
         for (e, lab) in nonconst_conds(r):
-            pe = ir.peel(e, casts=False)
-            if pe[0] == 'bin' and pe[1] == 'Ge' and isinstance(lab, tuple) and lab[0] == 'otherwise':
-                l_, r_ = ir.peel(pe[2]), ir.peel(pe[3])
+            # the fact total_len <= data.len() holds on this path, however the test is spelled
+            fact = ir.cmp_fact(e, lab)
+            if fact is not None and fact[0] == 'le':
+                r_, l_ = ir.peel(fact[1]), ir.peel(fact[2])
                 if l_[0] == 'call' and l_[1].endswith("::len") and any(y[0] == 'field' and y[2] == 'data' for y in ir.walk(l_)) and \
                         any(y[0] == 'call' and y[1].endswith("checked_add") for y in ir.walk(r_)):
                     guard = True
@@ -77,7 +78,17 @@ def run(rep, facts):
     nreads = 0
     for bi, blk in enumerate(b.blocks):
         t = blk["t"]
-        if t["k"] == "call" and F.norm(t["func"].get("path", "")) == READ:
+        cal = F.norm(t["func"].get("path", "")) if t["k"] == "call" else None
+        is_read = cal == READ
+        if cal and not is_read and facts.is_new_helper(cal) and t["args"]:
+            # a reader helper introduced later: reads one prefix through the cursor it is given (its first parameter)
+            for hb in facts.by_npath.get(cal, []):
+                hr = ir.Resolver(hb, opaque_mut_borrowed=True)
+                hreads = [(hbi, ht) for hbi, hblk in enumerate(hb.blocks) for ht in [hblk["t"]]
+                          if ht["k"] == "call" and F.norm(ht["func"].get("path", "")) == READ]
+                if len(hreads) == 1 and ir.peel(hr.operand(hreads[0][1]["args"][0], (hreads[0][0], -1)))[0] == 'param':
+                    is_read = True
+        if is_read:
             nreads += 1
             e = ir.peel(r0.operand(t["args"][0], (bi, -1)))
             if e[0] == 'local':
